@@ -4,6 +4,9 @@
 //	wm   : wmark.Watermarker over a scripted AdvanceTime / CurrentWatermark history (timestamps pass through
 //	       Timestamp.AsTime / timestamppb.New exactly as in the source runner)
 //	pipe : the source runner's output stage (real sendOperatorEvent + real operator cluster) with recording operators
+//	loop : the real processEvents loop scripted through stand-ins for the watermark ticker and the source read channel,
+//	       the real output stage, operator batches larger than one and no time-out flush: several ticks and keyed events
+//	       inside ONE operator batch, values compared as delivered
 //	run  : a real sourcerunner.SourceRunner (Start, HandleDeploy, HandleAssignSplits) reading a scripted source to its
 //	       end with a scripted KeyEventBatch handler and recording operators
 //	reg  : operator.TimerRegistry over a real TimerStore on a real dkv.DB (memory filesystem)
@@ -53,6 +56,7 @@ func (eng) CoqRun(mode string) string      { return "Check_wmark.run" }
 func (eng) Rule(mode string) string {
 	return "wm: real Watermarker over random AdvanceTime/CurrentWatermark histories (ordered, shuffled, duplicate, pre-epoch, zero-time, pre-year-1, nil and denormal protobuf timestamps; allowed lateness 0 / small / hours / MaxInt64 / negative). " +
 		"pipe: real sendOperatorEvent + operator cluster, 1-4 recording operators, keyed placeholders with 0-3 events, watermark and barrier placeholders in random order. " +
+		"loop: real processEvents + sendOperatorEvent + operator cluster, scripted ticker and source reads, key-event batch 1-3, operator batch 2-6 without time-out flush, 1-3 recording operators, ticks interleaved with reads of increasing timestamps; watermark values taken when the batch is delivered. " +
 		"run: real SourceRunner (Start/HandleDeploy/HandleAssignSplits) reading a scripted source to its end through a slow scripted KeyEventBatch, 1-4 recording operators. " +
 		"reg: real TimerRegistry on a real DKV (memory fs), 0-4 configured runners, random interleavings of AdvanceWatermark (known / unknown senders, regressing, nil, pre-epoch, zero-time watermarks) and SetTimer. " +
 		"op: real Operator with a scripted recording handler, batch size 1-3, keyed events carrying timers and watermark messages from several senders. " +
@@ -360,6 +364,53 @@ func genOp(r *hx.Rand, i int) *hx.Case {
 	return &hx.Case{Name: fmt.Sprintf("op-%d", i), Params: map[string]any{"mode": "c11", "kind": "op", "ids": ids, "m": m}, Ops: ops}
 }
 
+func genLoop(r *hx.Rand, i int) *hx.Case {
+	nops := r.Range(1, 3)
+	kgc := r.Range(nops, 32)
+	kb := r.Range(1, 3)
+	ob := r.Range(2, 6)
+	n := r.Range(4, 20)
+	base := int64(r.Intn(2000000000))
+	cur := base
+	id := 0
+	var ops []json.RawMessage
+	for k := 0; k < n; k++ {
+		if r.Chance(2, 5) {
+			ops = append(ops, hx.Op(opJ{K: "tk"}))
+			continue
+		}
+		nraw := 1
+		if r.Chance(1, 4) {
+			nraw = r.Range(0, 3)
+		}
+		raws := [][]evJ{}
+		for q := 0; q < nraw; q++ {
+			ne := 1
+			if r.Chance(1, 4) {
+				ne = r.Intn(3)
+			}
+			evs := []evJ{}
+			for e := 0; e < ne; e++ {
+				id++
+				cur += int64(r.Range(1, 10))
+				t := tsJ{S: cur, N: int32(r.Intn(2)) * int32(r.Intn(1000000000))}
+				if r.Chance(1, 8) {
+					t = genTs(r, base, 30)
+				}
+				key := fmt.Sprintf("key-%d", r.Intn(12))
+				if nops > 1 && r.Chance(1, 2) {
+					key = "key-0" // keep most events on one operator so that its batch holds events and ticks
+				}
+				evs = append(evs, evJ{Key: key, ID: id, Ts: t})
+			}
+			raws = append(raws, evs)
+		}
+		ops = append(ops, hx.Op(opJ{K: "rd", Raws: raws}))
+	}
+	ops = append(ops, hx.Op(opJ{K: "tk"}))
+	return &hx.Case{Name: fmt.Sprintf("loop-%d", i), Params: map[string]any{"mode": "c11", "kind": "loop", "nops": nops, "kgc": kgc, "kb": kb, "ob": ob}, Ops: ops}
+}
+
 func genRun(r *hx.Rand, i int) *hx.Case {
 	nops := r.Range(1, 4)
 	kgc := r.Range(nops, 64)
@@ -395,9 +446,9 @@ func genRun(r *hx.Rand, i int) *hx.Case {
 }
 
 func (eng) Generate(mode, tier string, r *hx.Rand) []*hx.Case {
-	nwm, npipe, nreg, nop, nrun := 500, 200, 500, 150, 12
+	nwm, npipe, nreg, nop, nrun, nloop := 500, 200, 500, 150, 12, 200
 	if tier == "thorough" {
-		nwm, npipe, nreg, nop, nrun = 6000, 2500, 6000, 2000, 80
+		nwm, npipe, nreg, nop, nrun, nloop = 6000, 2500, 6000, 2000, 80, 2500
 	}
 	var cs []*hx.Case
 	for i := 0; i < nwm; i++ {
@@ -411,6 +462,9 @@ func (eng) Generate(mode, tier string, r *hx.Rand) []*hx.Case {
 	}
 	for i := 0; i < nop; i++ {
 		cs = append(cs, genOp(r, i))
+	}
+	for i := 0; i < nloop; i++ {
+		cs = append(cs, genLoop(r, i))
 	}
 	for i := 0; i < nrun; i++ {
 		cs = append(cs, genRun(r, i))
@@ -438,6 +492,8 @@ func (e eng) Execute(mode string, c *hx.Case) (*hx.Result, error) {
 		f = execOp
 	case "run":
 		f = execRun
+	case "loop":
+		f = execLoop
 	default:
 		return nil, fmt.Errorf("unknown kind %q", kind)
 	}
@@ -552,11 +608,26 @@ type recOp struct {
 	events []string // Gallina sev terms
 	raw    []string
 	complete int
+	twoWmOneBatch bool // a delivered batch held watermark, keyed event, watermark
 }
 
 func (o *recOp) HandleEventBatch(ctx context.Context, batch []*workerpb.Event) error {
 	o.mu.Lock()
 	defer o.mu.Unlock()
+	st := 0
+	for _, e := range batch {
+		switch e.Event.(type) {
+		case *workerpb.Event_Watermark:
+			if st == 2 {
+				o.twoWmOneBatch = true
+			}
+			st = 1
+		case *workerpb.Event_KeyedEvent:
+			if st >= 1 {
+				st = 2
+			}
+		}
+	}
 	for _, e := range batch {
 		switch ev := e.Event.(type) {
 		case *workerpb.Event_KeyedEvent:
@@ -841,6 +912,113 @@ func execRun(c *hx.Case, ops []opJ) (*hx.Result, error) {
 	}
 	term := fmt.Sprintf("RunC %s %s %s", hx.CoqN(uint64(nops)), hx.CoqList(routed, "N * N * pbts"), hx.CoqList(streams, "list sev"))
 	return &hx.Result{Term: term, Nontrivial: nk >= 2, Tags: tagList("run", tags), Observed: obs}, nil
+}
+
+func keyJSONRecords(ctx context.Context, records [][]byte) ([][]*handlerpb.KeyedEvent, error) {
+	out := make([][]*handlerpb.KeyedEvent, len(records))
+	for i, raw := range records {
+		var evs []evJ
+		if err := json.Unmarshal(raw, &evs); err != nil {
+			return nil, err
+		}
+		for _, e := range evs {
+			val := make([]byte, 8)
+			binary.BigEndian.PutUint64(val, uint64(e.ID))
+			out[i] = append(out[i], &handlerpb.KeyedEvent{Key: []byte(e.Key), Value: val, Timestamp: e.Ts.pb()})
+		}
+	}
+	return out, nil
+}
+
+// execLoop: the real processEvents loop and output stage, scripted; what matters is the value every Watermark
+// event carries when its operator batch is DELIVERED (the event objects sit in the batch until then).
+func execLoop(c *hx.Case, ops []opJ) (*hx.Result, error) {
+	nops := paramInt(c, "nops", 1)
+	kgc := paramInt(c, "kgc", 8)
+	kb := paramInt(c, "kb", 1)
+	ob := paramInt(c, "ob", 2)
+	if nops < 1 || kgc < nops || kb < 1 || ob < 1 {
+		return nil, fmt.Errorf("bad loop params")
+	}
+	recs := make([]*recOp, nops)
+	pops := make([]proto.Operator, nops)
+	for i := range recs {
+		recs[i] = &recOp{}
+		pops[i] = recs[i]
+	}
+	errChan := make(chan error, 64)
+	loop := sourcerunner.VerifNewLoop(kgc, pops, kb, ob, keyJSONRecords, errChan)
+	defer loop.Close()
+	ks := partitioning.NewKeySpace(kgc, nops)
+	tags := map[string]bool{fmt.Sprintf("nops_%d", nops): true, fmt.Sprintf("opbatch_%d", ob): true, fmt.Sprintf("keybatch_%d", kb): true}
+	var terms []string
+	placeholders, nw, nk := 0, 0, 0
+	for _, o := range ops {
+		switch o.K {
+		case "rd":
+			records := [][]byte{}
+			for _, evs := range o.Raws {
+				if evs == nil {
+					evs = []evJ{}
+				}
+				raw, _ := json.Marshal(evs)
+				records = append(records, raw)
+				items := make([]string, len(evs))
+				for i, e := range evs {
+					tsTags(e.Ts, tags)
+					items[i] = fmt.Sprintf("(%s, %s, %s)", hx.CoqN(uint64(ks.RangeIndex([]byte(e.Key)))), hx.CoqN(uint64(e.ID)), e.Ts.coq())
+					nk++
+				}
+				terms = append(terms, "PK "+hx.CoqList(items, "N * N * pbts"))
+				placeholders++
+			}
+			loop.Read(records)
+		case "tk":
+			loop.Tick()
+			terms = append(terms, "PW")
+			placeholders++
+			nw++
+		default:
+			return nil, fmt.Errorf("bad op %q for kind loop", o.K)
+		}
+	}
+	loop.Sync()           // the loop has queued every placeholder
+	loop.FlushKeyEvents() // resolve the partially filled key-event batch
+	deadline := time.Now().Add(20 * time.Second)
+	for {
+		n, errs := loop.Sent()
+		if len(errs) > 0 {
+			return nil, fmt.Errorf("sendOperatorEvent: %v", errs[0])
+		}
+		if n >= placeholders {
+			break
+		}
+		select {
+		case err := <-errChan:
+			return nil, fmt.Errorf("runner error: %v", err)
+		default:
+		}
+		if time.Now().After(deadline) {
+			return nil, fmt.Errorf("output stage handled %d of %d placeholders within 20 s", n, placeholders)
+		}
+		time.Sleep(100 * time.Microsecond)
+	}
+	// two flushes: the second returns only after every operator goroutine finished delivering the first
+	loop.FlushOperators()
+	loop.FlushOperators()
+	streams := make([]string, nops)
+	var obs []any
+	for i, rc := range recs {
+		rc.mu.Lock()
+		streams[i] = hx.CoqList(rc.events, "sev")
+		obs = append(obs, strings.Join(rc.raw, " "))
+		if rc.twoWmOneBatch {
+			tags["two_watermarks_around_event_in_one_batch"] = true
+		}
+		rc.mu.Unlock()
+	}
+	term := fmt.Sprintf("PipeC %s %s %s", hx.CoqN(uint64(nops)), hx.CoqList(terms, "pop"), hx.CoqList(streams, "list sev"))
+	return &hx.Result{Term: term, Nontrivial: nw >= 2 && nk >= 1, Tags: tagList("loop", tags), Observed: obs}, nil
 }
 
 func srName(i int) string  { return fmt.Sprintf("sr%d", i) }
